@@ -1312,21 +1312,85 @@ func c09Alive(gs []uint64) map[uint64]bool {
 	return out
 }
 
+// One round = the witness goroutines of one detectDivergence / findNewPrimary /
+// compareFirstHeaderWithWitnesses call.  A round is organised by witness SLOT (index in
+// c.witnesses when the round starts), not by provider: the client can end up with the same
+// provider object in several slots (findNewPrimary promotes a witness to primary before
+// removeWitnesses refuses to empty the list, so the provider stays a witness too; a later
+// findNewPrimary(remove=false) appends that primary once more), and then two goroutines of one
+// round talk to the same provider.
+type c09Arr struct {
+	pid int64
+	gid uint64
+}
+
 type c09Round struct {
-	parts    []int64
-	gid      map[int64]uint64
-	released map[int64]bool
+	parts    []int64  // provider id per witness slot
+	arrived  []c09Arr // goroutines that reached the gate
+	released int
+	order    []uint64 // schedule, fixed once every slot's goroutine has arrived
+}
+
+// schedule: the goroutine ids in the order in which they have to run (each to completion before
+// the next starts): by rank of the provider, then by witness index — the order of
+// C09.Model.arrival_order (a stable insertion sort of the indexed witness list by rank).
+// Goroutines are matched to slots by provider; the goroutines of slots that hold the same
+// provider are matched in the order in which they were created (= slot order: the client
+// starts them in a `for i := range c.witnesses` loop), which is the order of their goroutine ids
+// because the test runs with GOMAXPROCS(1) (ids come from the single P's cache, refilled from a
+// global increasing counter).  The same assumption is CHECKED on every round with at least two
+// slots: the ids of all goroutines, taken in slot order, must increase (anomalies are counted).
+func (s *c09Sched) schedule(rd *c09Round) []uint64 {
+	if rd.order != nil {
+		return rd.order
+	}
+	type slot struct {
+		idx int
+		pid int64
+		gid uint64
+	}
+	byPid := map[int64][]uint64{}
+	for _, a := range rd.arrived {
+		byPid[a.pid] = append(byPid[a.pid], a.gid)
+	}
+	for _, l := range byPid {
+		sort.Slice(l, func(i, j int) bool { return l[i] < l[j] })
+	}
+	var slots []slot
+	for i, q := range rd.parts {
+		if l := byPid[q]; len(l) > 0 {
+			slots = append(slots, slot{i, q, l[0]})
+			byPid[q] = l[1:]
+		}
+	}
+	for i := 1; i < len(slots) && len(rd.arrived) >= len(rd.parts); i++ {
+		if slots[i].gid < slots[i-1].gid {
+			s.anomalies++
+			break
+		}
+	}
+	sort.SliceStable(slots, func(i, j int) bool { return s.rank[slots[i].pid] < s.rank[slots[j].pid] })
+	var out []uint64
+	for _, sl := range slots {
+		out = append(out, sl.gid)
+	}
+	if len(rd.arrived) >= len(rd.parts) {
+		rd.order = out
+	}
+	return out
 }
 
 type c09Sched struct {
-	mu       sync.Mutex
-	client   *Client
-	rank     map[int64]int
-	round    *c09Round
-	seen     map[uint64]bool
-	pending  []uint64
-	timeouts int
-	rounds   int
+	mu        sync.Mutex
+	client    *Client
+	rank      map[int64]int
+	round     *c09Round
+	seen      map[uint64]bool
+	pending   []uint64
+	timeouts  int
+	rounds    int
+	dupRounds int // rounds in which one provider held several witness slots
+	anomalies int // rounds in which goroutine ids did not increase with the slot index
 }
 
 const c09Wait = 10 * time.Second
@@ -1343,60 +1407,86 @@ func (s *c09Sched) gate(pid int64) {
 	}
 	s.seen[g] = true
 	s.pending = append(s.pending, g)
-	if s.round == nil || len(s.round.released) >= len(s.round.parts) {
-		rd := &c09Round{gid: map[int64]uint64{}, released: map[int64]bool{}}
+	if s.round == nil || s.round.released >= len(s.round.parts) {
+		rd := &c09Round{}
+		dup := false
 		if s.client != nil {
 			for _, w := range s.client.witnesses {
 				if cp, ok := w.(*c09Provider); ok {
+					for _, q := range rd.parts {
+						dup = dup || q == cp.id
+					}
 					rd.parts = append(rd.parts, cp.id)
 				}
 			}
+		}
+		if dup {
+			s.dupRounds++
 		}
 		s.round = rd
 		s.rounds++
 	}
 	rd := s.round
-	found := false
+	have, want := 1, 0
+	for _, a := range rd.arrived {
+		if a.pid == pid {
+			have++
+		}
+	}
 	for _, q := range rd.parts {
 		if q == pid {
-			found = true
+			want++
 		}
 	}
-	if !found {
+	if have > want {
 		rd.parts = append(rd.parts, pid)
 	}
-	rd.gid[pid] = g
-	var before []int64
-	for _, q := range rd.parts {
-		if s.rank[q] < s.rank[pid] {
-			before = append(before, q)
-		}
-	}
+	rd.arrived = append(rd.arrived, c09Arr{pid, g})
 	s.mu.Unlock()
 	deadline := time.Now().Add(c09Wait)
-	for _, q := range before {
-		for {
-			s.mu.Lock()
-			gq, ok := rd.gid[q]
-			s.mu.Unlock()
-			if ok && !c09Alive([]uint64{gq})[gq] {
-				break
-			}
+	timeout := func(what string, q uint64) {
+		s.mu.Lock()
+		s.timeouts++
+		s.mu.Unlock()
+		if os.Getenv("VERIF_C09_DEBUG") != "" {
+			buf := make([]byte, 1<<20)
+			fmt.Fprintf(os.Stderr, "C09 gate timeout: goroutine %d (provider %d) waits for %s (gid %d)\n%s\n", g, pid, what, q, buf[:runtime.Stack(buf, true)])
+		}
+	}
+	// every goroutine of the round has to be here before the slots can be told apart
+	for {
+		s.mu.Lock()
+		all := len(rd.arrived) >= len(rd.parts)
+		s.mu.Unlock()
+		if all {
+			break
+		}
+		if time.Now().After(deadline) {
+			timeout("the other goroutines of the round", 0)
+			break
+		}
+		time.Sleep(20 * time.Microsecond)
+	}
+	s.mu.Lock()
+	var before []uint64
+	for _, q := range s.schedule(rd) {
+		if q == g {
+			break
+		}
+		before = append(before, q)
+	}
+	s.mu.Unlock()
+	for _, gq := range before {
+		for c09Alive([]uint64{gq})[gq] {
 			if time.Now().After(deadline) {
-				s.mu.Lock()
-				s.timeouts++
-				s.mu.Unlock()
-				if os.Getenv("VERIF_C09_DEBUG") != "" {
-					buf := make([]byte, 1<<20)
-					fmt.Fprintf(os.Stderr, "C09 gate timeout: provider %d waits for %d (gid %d known %v)\n%s\n", pid, q, gq, ok, buf[:runtime.Stack(buf, true)])
-				}
+				timeout("an earlier goroutine to finish", gq)
 				break
 			}
 			time.Sleep(20 * time.Microsecond)
 		}
 	}
 	s.mu.Lock()
-	rd.released[pid] = true
+	rd.released++
 	s.mu.Unlock()
 }
 
@@ -1407,7 +1497,7 @@ func (s *c09Sched) Drain() {
 	for {
 		s.mu.Lock()
 		rd := s.round
-		waitArr := rd != nil && len(rd.gid) < len(rd.parts)
+		waitArr := rd != nil && len(rd.arrived) < len(rd.parts)
 		pend := append([]uint64{}, s.pending...)
 		s.mu.Unlock()
 		if !waitArr {
@@ -1712,6 +1802,14 @@ func (sc *c09Scn) run(cs *vg.Cases, id int, kind string, header string) {
 		}
 	} else {
 		cs.Count(fmt.Sprintf("init-class-%d", initObs.class), 1)
+	}
+	cs.Count("witness-rounds", sc.sched.rounds)
+	if sc.sched.dupRounds > 0 {
+		cs.Count("witness-rounds-with-one-provider-in-several-slots", sc.sched.dupRounds)
+	}
+	if sc.sched.anomalies > 0 {
+		cs.Count("goroutine-id-order-anomalies", sc.sched.anomalies)
+		cs.Notes = append(cs.Notes, fmt.Sprintf("case %d: in %d rounds the goroutine ids did not increase with the witness index (the tie-break between slots holding the same provider relies on it)", id, sc.sched.anomalies))
 	}
 	if sc.sched.timeouts > 0 {
 		cs.Count("gate-timeouts", sc.sched.timeouts)
@@ -2171,6 +2269,9 @@ func c09DirectedF23(r *vg.Rand) *c09Scn {
 }
 
 func TestVerifC09Client(t *testing.T) {
+	// one P: goroutine ids are handed out in creation order (see c09Sched.schedule); the witness
+	// goroutines are run one after another by the gate anyway
+	defer runtime.GOMAXPROCS(runtime.GOMAXPROCS(1))
 	cs := vg.NewCases("C09", "c09_client", "TM.C09.Exec")
 	root := vg.NewRand(vg.Seed())
 	t0 := time.Now()
